@@ -336,16 +336,17 @@ def explore_job(job):
     global OPTS
     fid, prefix, budget, OPTS = job
     out = []
-    stack = [prefix]
+    stack = [(prefix, None)]
     leftover = []
     t_end = time.time() + OPTS.get("job_seconds", 20)
     while stack:
         if len(out) >= budget or time.time() > t_end:
-            leftover = stack
+            leftover = [p for p, _ in stack]
             break
-        p = stack.pop()
+        p, seed = stack.pop()
         ex = X.Executor(PROG, IC.I, INIT, OPTS)
         ex.install_env()
+        ex.seed_model = seed
         t0 = time.time()
         try:
             st = ex.run_path(fid, p)
@@ -368,8 +369,9 @@ def explore_job(job):
         if st["status"] == "ok" and OPTS.get("witness") and ex.pinned is None:
             # witness tape of this path for native validation
             if random.random() < OPTS.get("witness_rate", 1.0):
-                r = ex.check()
-                if r == z3.sat:
+                if ex.model is not None:
+                    st["witness"] = ex.model_tape(ex.model)
+                elif ex.check() == z3.sat:
                     st["witness"] = ex.model_tape(ex.solver.model())
         out.append(st)
         for w in reversed(ex.newwork):
